@@ -483,7 +483,9 @@ class AlignmentCollector:
         gene_list = sorted(gene_list, key=lambda x: x.start)
         gene_info = GeneInfo(gene_list, self.genedb, self.params.delta)
         if self.params.needs_reference:
-            gene_info.set_reference_sequence(current_region[0], current_region[1], self.chr_record)
+            # reported reference transcripts may extend beyond the reads of the region
+            gene_info.set_reference_sequence(min(current_region[0], gene_info.start), max(current_region[1], gene_info.end),
+                                             self.chr_record)
         return gene_info
 
     @staticmethod
